@@ -8,7 +8,7 @@ canonicalisation table (flip ⇒ extensions reverse-complemented; bucket compute
 (all_kmers ⇔ report flag; key/extensions/summary in lockstep ⇔ accepted); bucket() is the first four bases for every
 k-mer type (monotone in the k-mer order, < 256); the two summarizers (accept ⇔ count >= untruncated threshold, union of
 extensions, data); the flanking-extension iterator table."""
-from .. import dt_filter, dt_seq
+from .. import lemmas, dt_filter, dt_seq
 from . import common
 
 ASSUMPTIONS = ["the reference grouping itself (equality of the returned table with it) needs the data and is not decided",
@@ -21,3 +21,4 @@ def run(F, rep):
     rep.run(dt_filter.summarizer_tables, F, rep, "C05.6")
     rep.run(common.run_kmer_lemmas, F, rep, {"bucket"})
     rep.run(dt_seq.kmer_iter_tables, F, rep, "C05.8")
+    rep.run(lemmas.kmer_iter_e2e_lemmas, F, rep, "L-iter")
